@@ -110,6 +110,23 @@ def make_snowing(case):
     return S
 
 
+def run_history(case, programs):
+    """successive `run()` calls on ONE object; returns the arrays published after the last one"""
+    S = make_snowing(case)
+    last = dict(case)
+    try:
+        S.run()
+        for prog in programs:
+            last = dict(case, **prog)
+            S.opcond = make_opcond(last)
+            S.run()
+    except Exception as e:
+        return {"raise": core.exc_class(e), "stage": "run"}, last
+    return {"raise": None, "S": S, "stats": list(S._stats.values()), "time": np.asarray(S._time, float),
+            "temp": np.asarray(S._temp, float), "ice": np.asarray(S._iceMassFraction, float),
+            "shelf": np.asarray(S._shelfTemp, float), "const": dict(S.const)}, last
+
+
 def kb_of(const):
     """`kb = 10 ** (-(a + xi_v*c))` with the code's fixed kinetic seed 2024"""
     from scipy.stats import norm
@@ -457,7 +474,7 @@ def _cache_path(case):
     h = hashlib.sha256()
     h.update(core.repo_fingerprint().encode())
     h.update(json.dumps(case, sort_keys=True, default=str).encode())
-    h.update(b"obs-v4")
+    h.update(b"obs-v5")
     d = core.VERIF / ".cache" / "s2d"
     d.mkdir(parents=True, exist_ok=True)
     return d / (h.hexdigest()[:24] + ".json.gz")
@@ -568,6 +585,100 @@ def _evap_inferred(case, res, dt, inuc):
     return {"n": nwin, "worst_rel": float(worst), "row": wk, "vals": vals}
 
 
+
+def _top_flux(case, res, dt, inuc):
+    """Heat flux the code actually applied at the top surface, inferred from two consecutive
+    recorded fields (one time step apart) by inverting the update of the top(-centre) node, in
+    both stages, 1D and 2D -- against the published boundary condition: the evaporative flux
+    law inside the vacuum window of a VISF run (liquid law before, ice law after nucleation,
+    either sign), zero otherwise (shelf / jacket, or outside the window)."""
+    const = res["const"]
+    dim = const["dimensionality"]
+    if dim == "homogeneous":
+        return None
+    T = res["temp"] + 273.15
+    w = res["ice"]
+    n = T.shape[0]
+    time_s = res["time"] * 3600.0
+    Nz, Nr = 30, 15
+    dz = const["height"] / Nz
+    sf = const["solid_fraction"]
+    k0 = sf * const["lambda_s"] + (1 - sf) * const["lambda_w"]
+    rho = const["rho_l"]
+    a = k0 / (const["cp_solution"] * rho) * dt
+    Tm = const["T_eq"] + 273.15
+    Teql = Tm - const["depression"]
+    visf = const["configuration"] == "VISF"
+    two_d = dim == "spatial_2D"
+    if two_d:
+        dr = (const["diameter"] / 2) / Nr
+        top = lambda F: F[:, Nz - 1, 0]
+        below = lambda F: F[:, Nz - 2, 0]
+        side = lambda F: F[:, Nz - 1, 1]
+    else:
+        top = lambda F: F[:, Nz - 1]
+        below = lambda F: F[:, Nz - 2]
+    c, l = top(T)[:-1], below(T)[:-1]
+    c1 = top(T)[1:]
+    wc, wl = top(w)[:-1], below(w)[:-1]
+    ks = np.arange(1, n)
+    # which transitions are exactly one time step?  (row k-1 -> k)
+    one = np.abs((time_s[1:] - time_s[:-1]) - dt) <= 1e-6 * dt
+    if inuc < n:
+        one[inuc - 1] = False          # the nucleation jump itself
+        if inuc < n - 1:
+            one[inuc] = True           # first solidification step (same time label)
+    solid = ks > inuc
+    # cooling stage
+    rad_c = (2 * ((side(T)[:-1] - 2 * c) + c) / dr ** 2) if two_d else 0.0
+    u_cool = ((c1 - c) / a - rad_c) * dz ** 2 + 2 * c - l
+    q_cool = (u_cool - c) * k0 / dz
+    # solidification stage
+    cp = const["cp_s"] * sf + const["cp_i"] * wc + const["cp_w"] * (1 - sf - wc)
+    kc = const["lambda_i"] * wc + const["lambda_w"] * (1 - wc)
+    kl = const["lambda_i"] * wl + const["lambda_w"] * (1 - wl)
+    beta = const["Dh"] * const["k_f"] * const["mass_solute"] / (const["M_s"] * rho * const["V"] * cp)
+    with np.errstate(divide="ignore", invalid="ignore"):
+        B = np.where(c < Teql, 1 + beta / (c - Tm) ** 2, 1.0)
+        pre = dt / (cp * rho)
+        ssum = (c1 - c) * B / pre
+        if two_d:
+            o = side(T)[:-1]
+            ko = const["lambda_i"] * side(w)[:-1] + const["lambda_w"] * (1 - side(w)[:-1])
+            ssum = ssum - (2 * kc * ((o - 2 * c) + c) / dr ** 2 + (ko - kc) * (o - c) / (4 * dr ** 2))
+        cu = (kc - kl) / (4 * dz ** 2) + kc / dz ** 2
+        rest = -(kc - kl) * l / (4 * dz ** 2) + kc * (-2 * c + l) / dz ** 2
+        u_sol = (ssum - rest) / cu
+        q_sol = (u_sol - c) * kc / dz
+    q_app = np.where(solid, q_sol, q_cool)
+    # the published boundary condition
+    q_exp = np.zeros(n - 1)
+    if visf:
+        # time at which the step was taken: dt*i (cooling) / t_nuc + dt*i (solidification) = label of row k
+        tt = time_s[1:]
+        inw = (tt > const["t_vac_start"] * 3600) & (tt < (const["t_vac_start"] + const["t_vac_duration"]) * 3600)
+        with np.errstate(all="ignore"):
+            ql = _evap_flux(const, c, False)
+            qi = _evap_flux(const, c, True)
+        q_exp = np.where(inw, np.where(solid, qi, ql), 0.0)
+    ok = one & np.isfinite(q_app)
+    if not ok.any():
+        return {"n": 0}
+    dev = np.where(ok, np.abs(q_app - q_exp), 0.0)
+    tol = 1e-2 + 1e-6 * np.abs(q_exp)
+    score = dev / tol
+    j = int(np.argmax(score))
+    out = {"n": int(ok.sum()), "worst_dev": float(dev[j]), "score": float(score[j]), "row": int(ks[j]),
+           "stage": "solidification" if solid[j] else "cooling", "q_applied": float(q_app[j]),
+           "q_expected": float(q_exp[j]), "T_top": float(c[j]),
+           "n_window": int((ok & (q_exp != 0)).sum()), "n_negative_expected": int((ok & (q_exp > 0)).sum())}
+    if visf:
+        with np.errstate(all="ignore"):
+            out["q_liquid"] = float(_evap_flux(const, c[j], False))
+            out["q_ice"] = float(_evap_flux(const, c[j], True))
+    return out
+
+
 def observe(case, use_cache=True):
     """the shared observation of one real run"""
     p = _cache_path(case)
@@ -603,6 +714,7 @@ def observe(case, use_cache=True):
             obs["bounds"] = _bounds_summary(case, res, inuc)
             obs["radial"] = _radial_summary(res, inuc)
             obs["evap"] = _evap_inferred(case, res, dt, inuc)
+            obs["topflux"] = None if strided else _top_flux(case, res, dt, inuc)
             stride = int(case.get("outStride", 1))
             rows = keep_rows(n, min(inuc, n - 1), stride)
             obs["iSaveEnd"] = min(inuc, n - 1)
@@ -662,6 +774,12 @@ def standard_cases(tier, seed=0):
         _base("shelf", 0.02, 0.06, 2000, 600),
         _base("shelf", 0.01, 0.04, 1000, 200, dim="spatial_1D"),
         _base("VISF", 0.01, 0.04, 1000, 200, dim="spatial_1D"),
+        # vacuum windows relative to nucleation (t_nuc ~ 30 s here): the two above straddle it,
+        # these open after it / close before it
+        _base("VISF", 0.01, 0.04, 1000, 200, visf=dict(t_vac_start=60 / 3600, t_vac_duration=60 / 3600)),
+        _base("VISF", 0.01, 0.04, 1000, 200, dim="spatial_1D",
+              visf=dict(t_vac_start=60 / 3600, t_vac_duration=60 / 3600)),
+        _base("VISF", 0.01, 0.04, 1000, 200, visf=dict(t_vac_start=2 / 3600, t_vac_duration=15 / 3600)),
     ]
     n_rand = 3 if tier == "quick" else 14
     if tier != "quick":
